@@ -1,12 +1,12 @@
-\* thorough tier: two mutations, two mark/reconcile rounds, initial tree (S, B(S|S))
+\* thorough tier: two mutations, two mark/reconcile rounds, initial trees (S, B(S|S)) and (S, B(S,S|), S), no FST edit (covered by ReconcileMC.cfg)
 SPECIFICATION Spec
 CONSTANTS
   MaxObj = 24
   MaxPos = 18
   MaxMut = 2
   MaxRounds = 2
-  MaxFst = 1
-  InitShapes <- ShapesTwo
+  MaxFst = 0
+  InitShapes <- ShapesThor
 VIEW View
 CHECK_DEADLOCK FALSE
 INVARIANT MarkNoAlias
